@@ -21,7 +21,7 @@ def describe(tier):
              'C1, C2 (caches), G (global config); one global BFS from the fresh state to the fixpoint, all histories of length 2, and (thorough) '
              'one BFS per first operation, depth <= %d or fixpoint; histories replayed in freshly imported modules; '
              'states deduplicated by canonical form. Leak clause: every operation repeated 4 times from the fresh state. '
-             'Abstraction validation: a history that reaches an already known state (depth <= 2) is probed with every third operation (rotating offset) '
+             'Abstraction validation: a history that reaches an already known state (depth <= 2) is probed with every fourth operation (rotating offset) '
              'and must give the representative\'s results.' % (len(OPS), ', '.join(o[0] for o in OPS), b['depth']),
         nontrivial='histories of length >= 2 (a probe call after at least one earlier call on shared objects).',
         bounds=b,
@@ -645,7 +645,7 @@ def run_shard(shard, ctx, tier):
             elif len(h) <= 2 and tier == 'thorough' and first is not None:
                 # abstraction validation: h reached a known state by another path; all operations must behave alike
                 rep = seen[k]
-                for j in range((h[0] + h[-1]) % 3, len(OPS), 3):          # every third operation, the offset rotating with the history
+                for j in range((h[0] + h[-1]) % 4, len(OPS), 4):          # every fourth operation, the offset rotating with the history
                     ra = replay(h + [j])[2][-1]
                     rb = replay(rep + [j])[2][-1]
                     ctx.evals += len(h) + len(rep) + 2
